@@ -10,23 +10,23 @@ package part
 //@ spec sizeOf(flags mathint) mathint = flags % 512
 
 //@ func (*header).kind
-//@   property C11
+//@   property C01 C02 C06 C11 C12 C17
 //@   pure
 //@   requires n != nil
 //@   ensures result == kindOf(n.flags)
 //@ func (*header).size
-//@   property C11
+//@   property C01 C02 C06 C11 C12 C17
 //@   pure
 //@   requires n != nil
 //@   ensures result == sizeOf(n.flags)
 //@ func (*header).setKind
-//@   property C11
+//@   property C01 C02 C06 C11 C12 C17
 //@   requires n != nil
 //@   modifies H_part_header_flags
 //@   ensures kindOf(n.flags) == k % 16 && sizeOf(n.flags) == old(sizeOf(n.flags))
 //@   ensures unchangedExcept(H_part_header_flags, n)
 //@ func (*header).setSize
-//@   property C11
+//@   property C01 C02 C06 C11 C12 C17
 //@   requires n != nil && 0 <= size
 //@   modifies H_part_header_flags
 //@   ensures sizeOf(n.flags) == size % 512 && kindOf(n.flags) == old(kindOf(n.flags))
@@ -34,7 +34,7 @@ package part
 
 // commonPrefix: the longest common prefix of a and b, as a prefix slice of a.
 //@ func commonPrefix
-//@   property C11
+//@   property C01 C02 C06 C11 C12 C17
 //@   pure
 //@   ensures arr(result) == arr(a) && off(result) == off(a) && len(result) <= len(a) && len(result) <= len(b)
 //@   ensures forall k int :: 0 <= k && k < len(result) ==> a[k] == b[k]
@@ -69,7 +69,7 @@ package part
 // remove(idx): the child at idx is dropped, the ones after it move down by one, the freed
 // slot is cleared, and the node stays well-formed.
 //@ func (*header).remove
-//@   property C11 C04
+//@   property C01 C02 C04 C06 C11 C12 C17
 //@   maypanic
 //@   requires n != nil && 0 <= idx && idx < sizeOf(n.flags)
 //@   requires kindOf(n.flags) == 2 ==> wf4(as(node4, n))
@@ -84,7 +84,7 @@ package part
 // findIndex(key) on node4/node16: the position of the first key >= key (the insertion point),
 // and the child there if its key is equal.
 //@ func (*header).findIndex returns (child, i)
-//@   property C11 C04
+//@   property C01 C02 C04 C06 C11 C12 C17
 //@   maypanic
 //@   pure
 //@   requires n != nil
@@ -105,7 +105,7 @@ package part
 
 // find(key) on node4/node16: the child whose key is equal, or nil.
 //@ func (*header).find
-//@   property C11 C04
+//@   property C01 C02 C04 C06 C11 C12 C17
 //@   maypanic
 //@   pure
 //@   requires n != nil
@@ -126,7 +126,7 @@ package part
 //@ func (*header).key
 //@   inline
 //@ func (*header).insert
-//@   property C11 C04
+//@   property C01 C02 C04 C06 C11 C12 C17
 //@   maypanic
 //@   requires n != nil && child != nil && child.prefixP != nil && !isElemOf(node48, child.prefixP) && 0 <= idx && idx <= sizeOf(n.flags)
 //@   requires kindOf(n.flags) == 2 ==> wf4(as(node4, n)) && sizeOf(n.flags) < 4 && (idx > 0 ==> as(node4, n).keys[idx-1] < keyOf(child)) && (idx < sizeOf(n.flags) ==> keyOf(child) < as(node4, n).keys[idx])
@@ -176,39 +176,39 @@ package part
 
 //@ spec leafOf(n *header) *leaf = kindOf(n.flags) == 1 ? as(leaf, n) : (kindOf(n.flags) == 2 ? as(node4, n).leaf : (kindOf(n.flags) == 3 ? as(node16, n).leaf : (kindOf(n.flags) == 4 ? as(node48, n).leaf : as(node256, n).leaf)))
 //@ func (*header).getLeaf
-//@   property C11
+//@   property C01 C02 C06 C11 C12 C17
 //@   maypanic
 //@   pure
 //@   requires n != nil && 1 <= kindOf(n.flags) && kindOf(n.flags) <= 5
 //@   ensures result == leafOf(n)
 //@   ensures kindOf(n.flags) == 1 ==> result != nil && addr(result.header) == n
 //@ func (*header).setLeaf
-//@   property C11
+//@   property C01 C02 C06 C11 C12 C17
 //@   maypanic
 //@   requires n != nil && 2 <= kindOf(n.flags) && kindOf(n.flags) <= 5
 //@   modifies H_part_node4_leaf H_part_node16_leaf H_part_node48_leaf H_part_node256_leaf
 //@   ensures leafOf(n) == l
 //@ func (*header).isLeaf
-//@   property C11
+//@   property C01 C02 C06 C11 C12 C17
 //@   pure
 //@   requires n != nil
 //@   ensures result <==> kindOf(n.flags) == 1
 
 //@ func (*header).txnID
-//@   property C01 C11
+//@   property C01 C02 C06 C11 C12 C17
 //@   maypanic
 //@   pure
 //@   requires n != nil && 1 <= kindOf(n.flags) && kindOf(n.flags) <= 5
 //@   ensures result == txnIDOf(n)
 //@ func (*header).setTxnID
-//@   property C01 C11
+//@   property C01 C02 C06 C11 C12 C17
 //@   maypanic
 //@   requires n != nil && 1 <= kindOf(n.flags) && kindOf(n.flags) <= 5
 //@   modifies H_part_node4_txnID H_part_node16_txnID H_part_node48_txnID H_part_node256_txnID
 //@   ensures kindOf(n.flags) != 1 ==> txnIDOf(n) == txnID
 //@   ensures @frame unchangedExcept(H_part_node4_txnID, as(node4, n)) && unchangedExcept(H_part_node16_txnID, as(node16, n)) && unchangedExcept(H_part_node48_txnID, as(node48, n)) && unchangedExcept(H_part_node256_txnID, as(node256, n))
 //@ func (*header).clone
-//@   property C01 C11 C12
+//@   property C01 C02 C06 C11 C12 C17
 //@   maypanic
 //@   requires n != nil && 1 <= kindOf(n.flags) && kindOf(n.flags) <= 5
 //@   ensures @nonnil result != nil
@@ -220,23 +220,23 @@ package part
 //@   inline
 //@ spec rootOnly(o mathint) bool = (o / 2) % 2 == 1
 //@ func options.rootOnlyWatch
-//@   property C12
+//@   property C01 C02 C06 C11 C12 C17
 //@   pure
 //@   ensures result <==> rootOnly(o)
 
 //@ func (*Tree).Txn
-//@   property C01 C11 C12
+//@   property C01 C02 C06 C11 C12 C17
 //@   flag nosafety
 //@   requires t != nil && t.prevTxn != nil
 //@   ensures @starts-at-reserved-id result != nil && result.txnID == t.nextTxnID && result.root == t.root && result.oldRoot == t.root && result.size == t.size && result.rootWatch == t.rootWatch && !result.dirty
 //@   ensures @starts-with-no-recorded-watches result.watches != nil ==> (forall c ptr :: !has(result.watches, c))
 
 //@ func (*Txn).Clone
-//@   property C01 C11 C17
+//@   property C01 C02 C06 C11 C12 C17
 //@   requires txn != nil
 //@   ensures @bump-before-escape txn.txnID == old(txn.txnID) + 1 && result.nextTxnID == txn.txnID && result.root == txn.root && result.size == txn.size
 //@ func (*Txn).Commit
-//@   property C01 C11
+//@   property C01 C02 C06 C11 C12 C17
 //@   flag nosafety
 //@   requires txn != nil && txn.prevTxn != nil
 //@   ensures @bump-before-escape txn.txnID == old(txn.txnID) + 1 && result.nextTxnID == txn.txnID && result.root == txn.root && result.size == txn.size
@@ -257,17 +257,17 @@ package part
 //@   trusted
 //@   pure
 //@ func (*Txn).Iterator
-//@   property C01 C11
+//@   property C01 C02 C06 C11 C12 C17
 //@   requires txn != nil
 //@   atcall newIterator@1 requires @bump-before-escape txn.txnID == old(txn.txnID) + 1
 //@   ensures txn.txnID == old(txn.txnID) + 1
 //@ func (*Txn).Prefix
-//@   property C01 C11
+//@   property C01 C02 C06 C11 C12 C17
 //@   requires txn != nil
 //@   atcall prefixSearch@1 requires @bump-before-escape txn.txnID == old(txn.txnID) + 1
 //@   ensures txn.txnID == old(txn.txnID) + 1
 //@ func (*Txn).LowerBound
-//@   property C01 C11
+//@   property C01 C02 C06 C11 C12 C17
 //@   requires txn != nil
 //@   atcall lowerbound@1 requires @bump-before-escape txn.txnID == old(txn.txnID) + 1
 //@   ensures txn.txnID == old(txn.txnID) + 1
@@ -275,7 +275,7 @@ package part
 // cloneNode: the result is owned by the transaction; if a copy had to be made, the original's
 // watch channel is recorded for closing and the copy gets a fresh channel (or none).
 //@ func (*Txn).cloneNode
-//@   property C01 C11 C12 C06 C17
+//@   property C01 C02 C06 C11 C12 C17
 //@   maypanic
 //@   requires txn != nil && n != nil && 1 <= kindOf(n.flags) && kindOf(n.flags) <= 5 && txn.watches != nil
 //@   atcall (*header).setTxnID@* requires @stamp-only-with-safe-watch $0.watch == nil || fresh($0.watch) || has(txn.watches, $0.watch)
@@ -289,12 +289,12 @@ package part
 // delete / removeChild / modify: wherever a node is stamped with the transaction's id, its
 // watch channel is nil, fresh, or recorded for closing (see above).
 //@ func (*header).prefix
-//@   property C11
+//@   property C01 C02 C06 C11 C12 C17
 //@   pure
 //@   requires n != nil && (n.prefixP == nil ==> n.prefixLen == 0)
 //@   ensures len(result) == n.prefixLen
 //@ func (*header).children
-//@   property C11 C01
+//@   property C01 C02 C06 C11 C12 C17
 //@   maypanic
 //@   pure
 //@   requires n != nil && (kindOf(n.flags) == 2 ==> sizeOf(n.flags) <= 4) && (kindOf(n.flags) == 3 ==> sizeOf(n.flags) <= 16) && (kindOf(n.flags) == 4 ==> sizeOf(n.flags) <= 48)
@@ -306,7 +306,7 @@ package part
 //@   ensures @len (kindOf(n.flags) >= 2 && kindOf(n.flags) <= 4 ==> len(result) == sizeOf(n.flags)) && (kindOf(n.flags) == 5 ==> len(result) == 256)
 //@   ensures kindOf(n.flags) < 1 || kindOf(n.flags) > 5 ==> result == nil
 //@ func (*header).cap
-//@   property C11
+//@   property C01 C02 C06 C11 C12 C17
 //@   maypanic
 //@   pure
 //@   requires n != nil
@@ -316,7 +316,7 @@ package part
 //@   ensures kindOf(n.flags) == 4 ==> result == 48
 //@   ensures kindOf(n.flags) == 5 ==> result == 256
 //@ func (*header).setPrefix
-//@   property C11
+//@   property C01 C02 C06 C11 C12 C17
 //@   flag nosafety
 //@   requires n != nil
 //@   modifies H_part_header_prefixP H_part_header_prefixLen
@@ -324,7 +324,7 @@ package part
 //@   ensures len(p) > 0 ==> n.prefixP == addr(p[0])
 //@   ensures n.prefixLen == len(p) % 65536
 //@ func (*header).promote
-//@   property C11 C12 C01
+//@   property C01 C02 C06 C11 C12 C17
 //@   maypanic
 //@   flag nosafety
 //@   requires n != nil && 1 <= kindOf(n.flags) && kindOf(n.flags) <= 4
@@ -337,7 +337,7 @@ package part
 //@   ensures @prefix result.prefixP == old(n.prefixP) && result.prefixLen == old(n.prefixLen)
 //@   ensures @frame onlyFresh()
 //@ func newLeaf
-//@   property C11 C12 C01
+//@   property C01 C02 C06 C11 C12 C17
 //@   flag nosafety
 //@   ensures @fresh result != nil && fresh(result) && (result.watch == nil || fresh(result.watch))
 //@   ensures @kind kindOf(result.flags) == 1 && sizeOf(result.flags) == 0
@@ -345,7 +345,7 @@ package part
 //@   ensures @content result.value == value && result.keyLen == len(key) % 65536 && result.prefixLen == len(prefix) % 65536 && (len(prefix) > 0 ==> result.prefixP == addr(prefix[0])) && (len(key) > 0 ==> result.keyP == addr(key[0]))
 //@   ensures @frame onlyFresh()
 //@ func (*Txn).removeChild
-//@   property C12 C06 C01 C11 C17
+//@   property C01 C02 C06 C11 C12 C17
 //@   flag nosafety
 //@   flag assumepre=tree-representation-invariant
 //@   atstore node4 requires @store-owned $p.txnID == txn.txnID || fresh($p)
@@ -365,7 +365,7 @@ package part
 //@   atcall (*header).setSize@* requires @mutate-owned fresh($0) || (kindOf($0.flags) != 1 && txnIDOf($0) == txn.txnID)
 //@   atcall (*header).setKind@* requires @mutate-owned fresh($0) || (kindOf($0.flags) != 1 && txnIDOf($0) == txn.txnID)
 //@ func (*Txn).delete
-//@   property C12 C06 C01 C11 C17
+//@   property C01 C02 C06 C11 C12 C17
 //@   flag nosafety
 //@   flag assumepre=tree-representation-invariant
 //@   atstore node4 requires @store-owned $p.txnID == txn.txnID || fresh($p)
@@ -387,7 +387,7 @@ package part
 //@   ensureslocal @deleted-leaf-watch-recorded hadOld ==> leaf != nil && (leaf.watch == nil || has(txn.watches, leaf.watch))
 //@   loop 2 invariant @leaf-watch-stays-recorded leaf != nil && (leaf.watch == nil || has(txn.watches, leaf.watch))
 //@ func (*Txn).modify
-//@   property C12 C06 C01 C11 C17
+//@   property C01 C02 C06 C11 C12 C17
 //@   flag nosafety
 //@   flag dyncall.mod=pure
 //@   flag assumepre=tree-representation-invariant
@@ -428,7 +428,7 @@ package part
 // when the transaction changed something (dirty) - not when some pointer happens to differ -
 // a clean transaction closes nothing at all, and the set of recorded channels is emptied.
 //@ func (*Txn).Notify
-//@   property C12 C06
+//@   property C01 C02 C06 C11 C12 C17
 //@   flag nosafety
 //@   maypanic
 //@   requires txn != nil && txn.watches != nil && len(txn.watches) >= 0
